@@ -68,7 +68,7 @@ structure DI (file : Bytes) (w ncols : Nat) (im : List Nat) (hrow : List Cell) (
   imps : s.imps = im.map (fun c => fieldOf' (doneCols rows (e - 1) c))
   win : (s.indsFull = false ∧ s.valsFull = false ∧ e = q) ∨
         ((s.indsFull || s.valsFull) = true ∧ 0 < e ∧ s.content = readWindow file (bnd hrow rows q) w ∧
-          s.start = bnd hrow rows e - bnd hrow rows q)
+          s.start = bnd hrow rows e - bnd hrow rows q ∧ bnd hrow rows q < file.length)
   inwin : bnd hrow rows e ≤ bnd hrow rows q + (readWindow file (bnd hrow rows q) w).length
 
 theorem lines_ne {ncols : Nat} {hrow : List Cell} {rows : List (List Cell)} (hnc : 0 < ncols) (hhdr : hrow.length = ncols)
